@@ -165,9 +165,34 @@ func (c *c14Case) build() (tpl string, want map[string]string, wantClass []strin
 	return `<div><p ` + strings.Join(all, " ") + `>x</p></div>`, want, wantClass, wantStyle, defined, staticOrder
 }
 
+// splitDecls splits a style value at semicolons outside parentheses and quotes.
+func splitDecls(s string) []string {
+	var parts []string
+	depth, quote, start := 0, byte(0), 0
+	for i := 0; i < len(s); i++ {
+		ch := s[i]
+		switch {
+		case quote != 0:
+			if ch == quote {
+				quote = 0
+			}
+		case ch == '"' || ch == '\'':
+			quote = ch
+		case ch == '(':
+			depth++
+		case ch == ')' && depth > 0:
+			depth--
+		case ch == ';' && depth == 0:
+			parts = append(parts, s[start:i])
+			start = i + 1
+		}
+	}
+	return append(parts, s[start:])
+}
+
 func parseStyle(s string) map[string]string {
 	m := map[string]string{}
-	for _, part := range strings.Split(s, ";") {
+	for _, part := range splitDecls(s) {
 		k, v, ok := strings.Cut(part, ":")
 		if !ok {
 			continue
@@ -323,7 +348,63 @@ func (c *c14Case) runReuse(ctx *core.Ctx) {
 	}
 }
 
+// --- style-values part: static declarations whose values contain semicolons, colons, quotes
+
+var c14StyleStatics = map[string]map[string]string{
+	`background: url(data:image/png;base64,AAA); margin: 0`: {"background": "url(data:image/png;base64,AAA)", "margin": "0"},
+	`content: ";"; color: red`:                              {"content": `";"`, "color": "red"},
+	`font-family: 'a;b', serif; top: 0`:                     {"font-family": `'a;b', serif`, "top": "0"},
+	`background: url("x;y.png") no-repeat; color: red;`:     {"background": `url("x;y.png") no-repeat`, "color": "red"},
+	`color: red`: {"color": "red"},
+}
+
+func (c *c14Case) runStyleValues(ctx *core.Ctx) {
+	ctx.NonTrivial()
+	want := map[string]string{}
+	for k, v := range c14StyleStatics[c.Form] {
+		want[k] = v
+	}
+	attrs := ` style="` + strings.ReplaceAll(c.Form, `"`, "&quot;") + `"`
+	switch c.StyleB {
+	case "obj1":
+		attrs += ` :style="{color: col, fontSize: '12px'}"`
+		want["color"], want["font-size"] = "blue", "12px"
+	case "str":
+		attrs += ` :style="ss"`
+		want["color"], want["top"] = "blue", "0"
+	}
+	switch c.Show {
+	case "f":
+		attrs += ` v-show="f"`
+		want["display"] = "none"
+	case "t":
+		attrs += ` v-show="t"`
+	}
+	tpl := `<div><p id="e"` + attrs + `>x</p></div>`
+	ctx.Eval(1)
+	out, err := renderString(tpl, c14Data())
+	if err != nil {
+		ctx.Violation("render-error", "style-values", c.StyleB+"/"+c.Show, fmt.Sprintf("tpl %q: %v", tpl, err))
+		return
+	}
+	e := htmlcmp.ByID(htmlcmp.Parse(out), "e")
+	if e == nil {
+		ctx.Violation("element-lost", "style-values", c.StyleB, fmt.Sprintf("tpl %q out %q", tpl, out))
+		return
+	}
+	st, _ := htmlcmp.Attr(e, "style")
+	got := parseStyle(st)
+	ctx.Outcome(st)
+	if fmt.Sprint(sortedKV(got)) != fmt.Sprint(sortedKV(want)) {
+		ctx.Violation("style-merge", "style-values/bound="+c.StyleB+"/show="+c.Show, "semicolon-or-colon-inside-a-value", fmt.Sprintf("tpl %q: style %q parses to %v, want %v", tpl, st, sortedKV(got), sortedKV(want)))
+	}
+}
+
 func (c *c14Case) Run(ctx *core.Ctx) {
+	if c.Part == "style-values" {
+		c.runStyleValues(ctx)
+		return
+	}
 	if c.Part == "reuse" {
 		c.runReuse(ctx)
 		return
@@ -451,12 +532,19 @@ func init() {
 		ID:    "C14",
 		Level: "exploration",
 		Rule: "one element carrying every combination of: static / interpolated title x title bound to 11 values of every truthiness (and v-bind:) x static class x 4 bound class forms (string, objects with bare/quoted/hyphenated keys and truthy/falsy/nil/undefined values) x static style x 3 bound style forms (camelCase object, custom property object, string) x v-show {none,true,truthy string,false,0} x directive attributes x 4 bracketed attributes (incl. a mustache value) x both source orders; " +
-			"plus a reuse part: 13 element forms (v-show with/without static and bound style, bound/interpolated title, :class object/string, :style over static style, v-if / v-else + v-show, v-html / v-text + v-show, boolean attribute) evaluated for every sequence of <=3 values out of 3 in 7 contexts where one source node is evaluated repeatedly (v-for on a parent, <template v-for>, scoped slot inside a component loop, slot used twice per include, component in a loop, component included repeatedly, successive renders on one engine through Load/Render and Vue.Render), oracle: every instance equals the element rendered alone on a fresh engine; " +
+			"plus static style values containing semicolons, colons and quotes (data URLs, quoted strings) x bound style x v-show; plus a reuse part: 13 element forms (v-show with/without static and bound style, bound/interpolated title, :class object/string, :style over static style, v-if / v-else + v-show, v-html / v-text + v-show, boolean attribute) evaluated for every sequence of <=3 values out of 3 in 7 contexts where one source node is evaluated repeatedly (v-for on a parent, <template v-for>, scoped slot inside a component loop, slot used twice per include, component in a loop, component included repeatedly, successive renders on one engine through Load/Render and Vue.Render), oracle: every instance equals the element rendered alone on a fresh engine; " +
 			"oracle: reference attribute model (values, class token list, style property map, static order, no directive/internal attribute in the output, bracketed literal). non-trivial = all with defined semantics",
 		Bounds:      map[string]string{"quick": "full product (528k elements)", "thorough": "same"},
 		Assumptions: []string{"a falsy binding next to a static attribute of the same name is unconstrained", "relative order of style declarations and of bound attributes without a static counterpart is C10's subject"},
 		Decode:      core.DecodeAs[c14Case](),
 		Enumerate: func(tier string, emit func(core.Case)) {
+			for st := range c14StyleStatics {
+				for _, sb := range []string{"none", "obj1", "str"} {
+					for _, sh := range []string{"none", "t", "f"} {
+						emit(&c14Case{Part: "style-values", Form: st, StyleB: sb, Show: sh})
+					}
+				}
+			}
 			valNames := []string{"A", "B", "C"}
 			for _, form := range c14FormNames {
 				for _, cx := range c14ReuseCtx {
